@@ -3,7 +3,8 @@
 (* Obs_DualS3.tla with values observed on the real dualS3Client and its two backends.         *)
 EXTENDS Integers, Sequences
 CONSTANTS last,  \* the client operation just performed, as seen by its caller:
-                 \*   [op, k, rng, ok, bytes, listed, calls]; calls = sequence of backend calls [b, op, k, rng] it made,
+                 \*   [op, k, rng, ok, bytes, listed, calls, alive]; calls = sequence of backend calls [b, op, k, rng] it made,
+                 \*   alive = the caller's context was still alive when the call returned,
                  \*   b = "P" (primary / write bucket) or "R" (read replica)
           want,  \* [ok, bytes, listed]: what the primary backend answers to the same question at that moment
           once   \* [ok, bytes]: the requested slice of the write-once content of the key (reads only)
@@ -12,11 +13,11 @@ Reads == {"DownloadSegment", "DownloadIndex"}
 Mutating == {"UploadSegment", "UploadIndex", "DeleteSegment", "DeleteIndex", "EnsureBucket"}
 PrimaryOnlyOps == Mutating \cup {"ListSegments"}
 
-\* A read returns the primary's bytes whenever the primary can answer; whatever it returns is the
-\* (write-once) content of that key and range, never other bytes.
+\* A read returns the primary's bytes whenever the primary can answer (and the caller has not used up its own
+\* deadline); whatever it returns is the (write-once) content of that key and range, never other bytes.
 C44_ReadMatchesPrimary ==
   last.op \in Reads =>
-     /\ want.ok => (last.ok /\ last.bytes = want.bytes)
+     /\ (want.ok /\ last.alive) => (last.ok /\ last.bytes = want.bytes)
      /\ last.ok => (once.ok /\ last.bytes = once.bytes)
 
 \* No write, delete, bucket creation or listing is ever sent to the replica, by any client operation.
